@@ -39,6 +39,22 @@ CHECKS = {
                 text="Hypotest.tla issues the calls of a hypothesis test one at a time (HypotestDefs.Plan: which POI treatment, which dataset) for all 16 flag sets x {q, qtilde, q0} x {asymptotics, toybased} x prerequisite faults; TLC checks AsimovFromBkgFit, StatisticsOnRightDataset, ToyProtocol, RefusedWithoutFits and the layout facts. Every case is executed on the real hypotest: refusals (UnspecifiedPOI / InvalidModel), identity of each returned entry with the calculator's own CLs+b, CLb, CLs, expected values, and the complete hook trace (every fit with its dataset) is validated by TLC against the plan in the order lane - the Asimov dataset must be exactly Model.expected_data of the recorded background-only (signal for q0) conditional fit, toy datasets exactly make_pdf(conditional fit of the respective hypothesis).sample re-generated under the same seed. On the closed-form families of FitClosed.tla the observed CLs/p0 and the median expected CLs are compared with the analytic asymptotic values.",
                 note="analytic comparison rtol 1e-4 (fit tolerance); band values beyond the median are left to C07; toy reproduction assumes numpy's global generator is consumed only by the two sample() calls",
                 technique="TLA+ protocol machine (TLC) + TLC trace validation of every fit of every hypotest + closed-form replay"),
+    "C07": dict(engine="asymptotics", design="4/C07",
+                text="Asymptotics.tla works with r = sqrt(q), rA = sqrt(qA) on a perfect-square grid (plus thirds and large values up to the underflow boundary) so that every Phi-argument is an exact rational; MC_Asymptotics.tla is the calculator protocol as a state machine (TestStatistic transform with the qtilde two-branch rule, Distributions, PValues, ExpectedPValues, incl. the distributions-before-statistic error path); TLC checks ArgsEqual (coded route = paper route for q, qtilde, q0), SeamContinuous, Ordering, BandEqualsPaper, BandMonotone, ClippedOnlyClips, NeverNaN. Every case is replayed on the real AsymptoticCalculator (get_test_stat stubbed to return TLC's q and qA so that the real transform runs) and on AsymptoticTestStatDistribution/hypotest, compared with mpmath Phi of the exact argument at rtol 1e-10, with the seam probed at +-1, +-2 ulp.",
+                note="qA > 0 and tails representable in double precision (|argument| < 37) as the property states; built by a sub-agent under my review",
+                technique="exact Phi-argument algebra in TLA+ (TLC) + replay of the calculator with stubbed statistics"),
+    "C09": dict(engine="upperlimit", design="4/C09",
+                text="UpperLimit.tla models six ordered piecewise-linear CLs curves with exact crossings; MC_UpperLimit.tla is the scan as a state machine: dispatch (level forwarded in both modes), cache, bracket extension by halving/doubling, six root searches with BestBracket transcribed from the insertion-ordered cache, and the grid mode with numpy's interp loop on the reversed arrays. TLC checks LevelUsedIsLevelPassed, TomsOK, BracketValid, ResultInCrossingCell, GridOK, BandOrdered, ResultsAreEvaluations and, as a self-test, that the instance dropping the level is rejected. Replay: hypotest inside upper_limits is replaced by a stub evaluating TLC's curves exactly; the real upper_limit, toms748_scan, linear_grid_scan and deprecated upperlimit run and are compared with the exact crossings; a handful of real-model scans check CLs(limit) = level.",
+                note="numpy backend only (the property has no backend dimension); crossings sitting exactly on an extended scan bound are outside the property (counted); built by a sub-agent under my review",
+                technique="TLA+ scan state machine over abstract monotone curves (TLC) + replay with a curve stub + real scans"),
+    "C13": dict(engine="hfgrad", design="4/C13",
+                text="HFGrad.tla derives d lambda/d theta for every bin and parameter component by the product/chain rule over the declared modifiers (exact rationals; the exponential normsys factor contributes ln(base) atoms), over the specification space of MC_HFModel at differentiable points with positive rates; TLC checks GradLocal and emits the pieces; the leaf evaluator forms d(2NLL)/d theta including the constraint terms; shim(twice_nll, do_grad=True) is evaluated on pytorch, jax and tensorflow x do_stitch x fixed masks and must return the plain objective value and the exact gradient (1e-8 relative at 64b).",
+                note="normsys only in the exponential regime at integer alpha; the code-4 core and the kinks of codes 0/1 at alpha=0 are excluded (covered through C03's derivative-continuity obligations)",
+                technique="exact symbolic differentiation in TLA+ (rationals + ln atoms) + replay of the value-and-gradient functions"),
+    "C17": dict(engine="patchset", design="4/C17",
+                text="PatchSet.tla models JSON trees (key order is data), canonical form, JSON pointers and the six RFC-6902 operations; the definition layer has two maps byName/byValues, the implementation layer pyhf's single dictionary as coded. MC_PatchSet.tla registers patches from a pool that contains the words pyhf uses internally, then looks up (names, tuples, lists, wrong length/type), verifies (every single-leaf corruption and key permutation, several digest algorithms, stale digests) and applies/re-applies operation lists; TLC checks RegisterIsAccept, TwoMapsExact, LookupExact, VerifyIffRecorded, ApplyPure, ImplEqDef. Every state is replayed on pyhf.PatchSet / pyhf.utils.digest.",
+                note="hash injectivity on the explored documents is assumed (collisions would surface as replay mismatches); an unhashable key raising TypeError instead of InvalidPatchLookup is tolerated and counted; built by a sub-agent under my review",
+                technique="TLA+ JSON-patch semantics and lookup maps (TLC) + replay of every state"),
     "C14": dict(engine="toys", design="4/C14",
                 text="Empirical.tla is the tail-fraction state machine (samples appended one toy at a time, then an observed value): TLC checks that the coded where/sum/divide equals the exact rational fraction, lies in [0,1], is monotone, counts ties and behaves outside the sample range, and every state is replayed on EmpiricalDistribution.pvalue (flat and column tensors, several backends). The toy-based hypotests of the Hypotest.tla case set are executed for real and their hook traces validated by TLC against TraceHypotest.tla: each toy dataset must be exactly make_pdf(conditional best fit of the respective hypothesis).sample re-generated under the same seed, signal toys first, each followed by its conditional and free fit. Toy estimates of CLs+b and CLb on one-bin counting models are compared with exactly enumerated tail sets (closed-form qtilde, mpmath) within 5 binomial sigma; pseudo-data shape, integrality and non-negativity are checked.",
                 note="the clause on per-bin mean/variance and auxiliary distributions is a statement about the RNG libraries: 6-sigma smoke test only (exploration); toy reproduction relies on numpy's global generator",
@@ -105,6 +121,10 @@ def build():
              "serves_properties": ["C06"], "kind_free_text": "test-statistic case table, closed-form scenarios, trace validation of wiring and exact value"},
             {"name": "hypotest", "path": "spec/HypotestDefs.tla spec/Hypotest.tla spec/TraceHypotest.tla spec/FitClosed.tla harness/checks/c08.py harness/hypotest_replay.py",
              "serves_properties": ["C08"], "kind_free_text": "hypothesis-test protocol machine, trace validation of every fit against the plan, closed-form CLs"},
+            {"name": "asymptotics", "path": "spec/Asymptotics.tla spec/MC_Asymptotics.tla harness/checks/c07.py harness/asymptotics_replay.py", "serves_properties": ["C07"], "kind_free_text": "exact Phi-argument algebra, calculator protocol machine, replay"},
+            {"name": "upperlimit", "path": "spec/UpperLimit.tla spec/MC_UpperLimit.tla harness/checks/c09.py harness/upperlimit_replay.py", "serves_properties": ["C09"], "kind_free_text": "scan state machine over abstract curves, replay with curve stub"},
+            {"name": "hfgrad", "path": "spec/HFGrad.tla spec/MC_HFGrad.tla harness/checks/c13.py harness/grad_replay.py", "serves_properties": ["C13"], "kind_free_text": "exact gradient pieces from the HFModel specification, replay on AD backends"},
+            {"name": "patchset", "path": "spec/PatchSet.tla spec/MC_PatchSet.tla harness/checks/c17.py harness/patchset_replay.py", "serves_properties": ["C17"], "kind_free_text": "patch-set lookup/verify/apply specification, replay on pyhf.PatchSet"},
             {"name": "toys", "path": "spec/Empirical.tla spec/Hypotest.tla spec/TraceHypotest.tla harness/checks/c14.py harness/toys_replay.py harness/hypotest_replay.py",
              "serves_properties": ["C14"], "kind_free_text": "empirical tail fraction machine, toy protocol trace validation, exact tails"},
             {"name": "wsops", "path": "spec/WorkspaceOps.tla spec/MC_WorkspaceOps.tla harness/checks/c16.py harness/wsops_replay.py",
